@@ -1,27 +1,649 @@
-//! C10 — stub, not built yet.
+//! C10 Annotation data is a deduplicated vocabulary and data search equals a scan.
 
 use crate::engine::*;
+use crate::hist::*;
+use crate::model::*;
 use proptest::prelude::*;
+use serde::{Deserialize, Serialize};
+use stam::*;
 
 pub struct C10;
 
+#[derive(Clone, Debug, Serialize, Deserialize, PartialEq)]
+pub enum OpSpec {
+    Null,
+    Any,
+    Equals(String),
+    EqualsInt(i64),
+    EqualsFloat(f64),
+    True,
+    False,
+    Gt(i64),
+    Ge(i64),
+    Lt(i64),
+    Le(i64),
+    GtF(f64),
+    GeF(f64),
+    LtF(f64),
+    LeF(f64),
+    DtExact(String),
+    DtAfter(String),
+    DtBefore(String),
+    DtAtOrAfter(String),
+    DtAtOrBefore(String),
+    HasElement(String),
+    HasElementInt(i64),
+    HasElementFloat(f64),
+    Not(Box<OpSpec>),
+    And(Vec<OpSpec>),
+    Or(Vec<OpSpec>),
+}
+
+fn dt(s: &str) -> chrono::DateTime<chrono::FixedOffset> {
+    chrono::DateTime::parse_from_rfc3339(s).expect("valid rfc3339")
+}
+
+impl OpSpec {
+    pub fn to_stam(&self) -> DataOperator<'static> {
+        match self {
+            OpSpec::Null => DataOperator::Null,
+            OpSpec::Any => DataOperator::Any,
+            OpSpec::Equals(s) => DataOperator::Equals(s.clone().into()),
+            OpSpec::EqualsInt(i) => DataOperator::EqualsInt(*i as isize),
+            OpSpec::EqualsFloat(f) => DataOperator::EqualsFloat(*f),
+            OpSpec::True => DataOperator::True,
+            OpSpec::False => DataOperator::False,
+            OpSpec::Gt(i) => DataOperator::GreaterThan(*i as isize),
+            OpSpec::Ge(i) => DataOperator::GreaterThanOrEqual(*i as isize),
+            OpSpec::Lt(i) => DataOperator::LessThan(*i as isize),
+            OpSpec::Le(i) => DataOperator::LessThanOrEqual(*i as isize),
+            OpSpec::GtF(f) => DataOperator::GreaterThanFloat(*f),
+            OpSpec::GeF(f) => DataOperator::GreaterThanOrEqualFloat(*f),
+            OpSpec::LtF(f) => DataOperator::LessThanFloat(*f),
+            OpSpec::LeF(f) => DataOperator::LessThanOrEqualFloat(*f),
+            OpSpec::DtExact(s) => DataOperator::ExactDatetime(dt(s)),
+            OpSpec::DtAfter(s) => DataOperator::AfterDatetime(dt(s)),
+            OpSpec::DtBefore(s) => DataOperator::BeforeDatetime(dt(s)),
+            OpSpec::DtAtOrAfter(s) => DataOperator::AtOrAfterDatetime(dt(s)),
+            OpSpec::DtAtOrBefore(s) => DataOperator::AtOrBeforeDatetime(dt(s)),
+            OpSpec::HasElement(s) => DataOperator::HasElement(s.clone().into()),
+            OpSpec::HasElementInt(i) => DataOperator::HasElementInt(*i as isize),
+            OpSpec::HasElementFloat(f) => DataOperator::HasElementFloat(*f),
+            OpSpec::Not(o) => DataOperator::Not(Box::new(o.to_stam())),
+            OpSpec::And(v) => DataOperator::And(v.iter().map(|o| o.to_stam()).collect()),
+            OpSpec::Or(v) => DataOperator::Or(v.iter().map(|o| o.to_stam()).collect()),
+        }
+    }
+    fn name(&self) -> &'static str {
+        match self {
+            OpSpec::Null => "Null",
+            OpSpec::Any => "Any",
+            OpSpec::Equals(_) => "Equals",
+            OpSpec::EqualsInt(_) => "EqualsInt",
+            OpSpec::EqualsFloat(_) => "EqualsFloat",
+            OpSpec::True => "True",
+            OpSpec::False => "False",
+            OpSpec::Gt(_) => "GreaterThan",
+            OpSpec::Ge(_) => "GreaterThanOrEqual",
+            OpSpec::Lt(_) => "LessThan",
+            OpSpec::Le(_) => "LessThanOrEqual",
+            OpSpec::GtF(_) => "GreaterThanFloat",
+            OpSpec::GeF(_) => "GreaterThanOrEqualFloat",
+            OpSpec::LtF(_) => "LessThanFloat",
+            OpSpec::LeF(_) => "LessThanOrEqualFloat",
+            OpSpec::DtExact(_) => "ExactDatetime",
+            OpSpec::DtAfter(_) => "AfterDatetime",
+            OpSpec::DtBefore(_) => "BeforeDatetime",
+            OpSpec::DtAtOrAfter(_) => "AtOrAfterDatetime",
+            OpSpec::DtAtOrBefore(_) => "AtOrBeforeDatetime",
+            OpSpec::HasElement(_) => "HasElement",
+            OpSpec::HasElementInt(_) => "HasElementInt",
+            OpSpec::HasElementFloat(_) => "HasElementFloat",
+            OpSpec::Not(_) => "Not",
+            OpSpec::And(_) => "And",
+            OpSpec::Or(_) => "Or",
+        }
+    }
+
+    /// Reference semantics written from the rustdoc of `DataOperator`: defined (Some) when the operator's type
+    /// matches the value's type (or the operator is type-agnostic); None (don't care) for cross-type
+    /// combinations whose outcome the documentation does not pin down.
+    pub fn reference(&self, v: &Val) -> Option<bool> {
+        use OpSpec::*;
+        match (self, v) {
+            (Any, _) => Some(true),
+            (Null, Val::Null) => Some(true),
+            (Null, _) => Some(false),
+            (True, Val::Bool(b)) => Some(*b),
+            (False, Val::Bool(b)) => Some(!*b),
+            (True | False, _) => Some(false),
+            (Equals(s), Val::Str(x)) => Some(s == x),
+            (Equals(_), _) => None,
+            (EqualsInt(i), Val::Int(x)) => Some(i == x),
+            (Gt(i), Val::Int(x)) => Some(x > i),
+            (Ge(i), Val::Int(x)) => Some(x >= i),
+            (Lt(i), Val::Int(x)) => Some(x < i),
+            (Le(i), Val::Int(x)) => Some(x <= i),
+            (EqualsInt(_) | Gt(_) | Ge(_) | Lt(_) | Le(_), Val::Float(_)) => None,
+            (EqualsInt(_) | Gt(_) | Ge(_) | Lt(_) | Le(_), _) => Some(false),
+            (EqualsFloat(f), Val::Float(x)) => Some(x == f),
+            (GtF(f), Val::Float(x)) => Some(x > f),
+            (GeF(f), Val::Float(x)) => Some(x >= f),
+            (LtF(f), Val::Float(x)) => Some(x < f),
+            (LeF(f), Val::Float(x)) => Some(x <= f),
+            (EqualsFloat(_) | GtF(_) | GeF(_) | LtF(_) | LeF(_), Val::Int(_)) => None,
+            (EqualsFloat(_) | GtF(_) | GeF(_) | LtF(_) | LeF(_), _) => Some(false),
+            (DtExact(s), Val::Dt(x)) => Some(dt(x) == dt(s)),
+            (DtAfter(s), Val::Dt(x)) => Some(dt(x) > dt(s)),
+            (DtBefore(s), Val::Dt(x)) => Some(dt(x) < dt(s)),
+            (DtAtOrAfter(s), Val::Dt(x)) => Some(dt(x) >= dt(s)),
+            (DtAtOrBefore(s), Val::Dt(x)) => Some(dt(x) <= dt(s)),
+            (DtExact(_) | DtAfter(_) | DtBefore(_) | DtAtOrAfter(_) | DtAtOrBefore(_), _) => Some(false),
+            (HasElement(s), Val::List(l)) => or3(l.iter().map(|e| Equals(s.clone()).reference(e))),
+            (HasElementInt(i), Val::List(l)) => or3(l.iter().map(|e| EqualsInt(*i).reference(e))),
+            (HasElementFloat(f), Val::List(l)) => or3(l.iter().map(|e| EqualsFloat(*f).reference(e))),
+            (HasElement(_) | HasElementInt(_) | HasElementFloat(_), _) => Some(false),
+            (Not(o), v) => o.reference(v).map(|b| !b),
+            (And(os), v) => and3(os.iter().map(|o| o.reference(v))),
+            (Or(os), v) => or3(os.iter().map(|o| o.reference(v))),
+        }
+    }
+    fn cross_type(&self, v: &Val) -> bool {
+        self.reference(v).is_none()
+    }
+}
+
+fn and3(it: impl Iterator<Item = Option<bool>>) -> Option<bool> {
+    let mut unknown = false;
+    for x in it {
+        match x {
+            Some(false) => return Some(false),
+            None => unknown = true,
+            _ => {}
+        }
+    }
+    if unknown {
+        None
+    } else {
+        Some(true)
+    }
+}
+fn or3(it: impl Iterator<Item = Option<bool>>) -> Option<bool> {
+    let mut unknown = false;
+    for x in it {
+        match x {
+            Some(true) => return Some(true),
+            None => unknown = true,
+            _ => {}
+        }
+    }
+    if unknown {
+        None
+    } else {
+        Some(false)
+    }
+}
+
+#[derive(Clone, Debug, Serialize, Deserialize)]
+pub struct Probe {
+    /// None = any set
+    pub set: Option<u16>,
+    /// None = any key (a key is only given together with a set)
+    pub key: Option<u16>,
+    pub op: OpSpec,
+}
+
+#[derive(Clone, Debug, Serialize, Deserialize)]
+pub struct Case {
+    pub hist: History,
+    pub probes: Vec<Probe>,
+}
+
+const DTS: [&str; 4] = [
+    "2024-01-02T03:04:05+00:00",
+    "2024-01-02T03:04:05+02:00",
+    "1999-12-31T23:59:59-05:00",
+    "2024-06-01T00:00:00.250+00:00",
+];
+
+fn leaf_op() -> BoxedStrategy<OpSpec> {
+    let ints = prop_oneof![(-3i64..=3), Just(12i64), Just(i64::MAX), Just(i64::MIN)];
+    let floats = proptest::sample::select(vec![0.0f64, 1.5, -2.25, 12.0, 1e10, 3.0, 1e-7, 2.0]);
+    let strs = prop_oneof![
+        proptest::sample::select(vec!["noun".to_string(), "verb".to_string(), "12".to_string(), "1.5".to_string(), "Noun".to_string(), "".to_string(), "true".to_string(), "yes".to_string(), "2024-01-02T03:04:05+00:00".to_string(), "3".to_string(), "-2".to_string()]),
+        text_strategy(4),
+    ];
+    let dts = proptest::sample::select(DTS.iter().map(|s| s.to_string()).collect::<Vec<_>>());
+    prop_oneof![
+        1 => Just(OpSpec::Null),
+        1 => Just(OpSpec::Any),
+        4 => strs.clone().prop_map(OpSpec::Equals),
+        2 => ints.clone().prop_map(OpSpec::EqualsInt),
+        2 => floats.clone().prop_map(OpSpec::EqualsFloat),
+        1 => Just(OpSpec::True),
+        1 => Just(OpSpec::False),
+        1 => ints.clone().prop_map(OpSpec::Gt),
+        1 => ints.clone().prop_map(OpSpec::Ge),
+        1 => ints.clone().prop_map(OpSpec::Lt),
+        1 => ints.clone().prop_map(OpSpec::Le),
+        1 => floats.clone().prop_map(OpSpec::GtF),
+        1 => floats.clone().prop_map(OpSpec::GeF),
+        1 => floats.clone().prop_map(OpSpec::LtF),
+        1 => floats.clone().prop_map(OpSpec::LeF),
+        1 => dts.clone().prop_map(OpSpec::DtExact),
+        1 => dts.clone().prop_map(OpSpec::DtAfter),
+        1 => dts.clone().prop_map(OpSpec::DtBefore),
+        1 => dts.clone().prop_map(OpSpec::DtAtOrAfter),
+        1 => dts.prop_map(OpSpec::DtAtOrBefore),
+        1 => strs.prop_map(OpSpec::HasElement),
+        1 => ints.prop_map(OpSpec::HasElementInt),
+        1 => floats.prop_map(OpSpec::HasElementFloat),
+    ]
+    .boxed()
+}
+
+fn op_spec() -> BoxedStrategy<OpSpec> {
+    let l1 = prop_oneof![
+        6 => leaf_op(),
+        1 => leaf_op().prop_map(|o| OpSpec::Not(Box::new(o))),
+        1 => proptest::collection::vec(leaf_op(), 1..=3).prop_map(OpSpec::And),
+        1 => proptest::collection::vec(leaf_op(), 1..=3).prop_map(OpSpec::Or),
+    ]
+    .boxed();
+    prop_oneof![
+        8 => l1.clone(),
+        1 => l1.clone().prop_map(|o| OpSpec::Not(Box::new(o))),
+        1 => proptest::collection::vec(l1.clone(), 1..=2).prop_map(OpSpec::And),
+        1 => proptest::collection::vec(l1, 1..=2).prop_map(OpSpec::Or),
+    ]
+    .boxed()
+}
+
+fn dspec_() -> BoxedStrategy<DSpec> {
+    (proptest::bool::weighted(0.3), 0u8..4, val_strategy(false))
+        .prop_map(|(with_id, key, val)| DSpec { with_id, key, val })
+        .boxed()
+}
+
+fn c10_ops(max: usize) -> BoxedStrategy<Vec<Op>> {
+    let adspec = prop_oneof![
+        5 => (prop_oneof![5 => any::<u16>().prop_map(SetRef::Live), 1 => Just(SetRef::Fresh)], proptest::bool::weighted(0.25), 0u8..4, val_strategy(false))
+            .prop_map(|(set, with_id, key, val)| ADSpec::New { set, with_id, key, val }),
+        2 => (any::<u16>(), any::<u16>()).prop_map(|(set, data)| ADSpec::Existing { set, data }),
+    ];
+    let annotate = (proptest::bool::weighted(0.3), any::<bool>(), any::<u16>(), proptest::collection::vec(adspec, 1..=3)).prop_map(
+        |(with_id, by_handle, res, data)| Op::Annotate {
+            with_id,
+            sfx: 0,
+            by_handle,
+            target: SelSpec::Res { res },
+            data,
+        },
+    );
+    let op = prop_oneof![
+        2 => (0u8..6, proptest::collection::vec(dspec_(), 0..=5)).prop_map(|(sfx, data)| Op::AddDataset { sfx, data }),
+        8 => (any::<u16>(), dspec_()).prop_map(|(set, d)| Op::InsertData { set, d }),
+        6 => annotate,
+        3 => (any::<u16>(), any::<u16>(), any::<bool>()).prop_map(|(set, pick, strict)| Op::RemoveData { set, pick, strict }),
+        3 => (any::<u16>(), any::<u16>(), any::<bool>()).prop_map(|(set, pick, strict)| Op::RemoveKey { set, pick, strict }),
+    ];
+    proptest::collection::vec(op, 0..=max).boxed()
+}
+
+fn sorted(mut v: Vec<(usize, usize)>) -> Vec<(usize, usize)> {
+    v.sort();
+    v
+}
+
 impl Property for C10 {
-    type Case = u8;
+    type Case = Case;
     fn id(&self) -> &'static str {
         "C10"
     }
     fn rule(&self) -> String {
-        "not built yet".into()
+        "case = history of dataset/data operations (datasets with data, insert_data with/without ids, annotations carrying new/existing data incl. on-the-fly datasets, remove_data, remove_key) + probes (set|any, key|any, operator tree over all DataOperator variants incl. Not/And/Or and numeric strings vs numbers); after every step: insertion handles and the whole vocabulary equal the reference model (same (key,value) without id -> one item; keys unique), key.data() equals a scan, and every probe through store.find_data / dataset.find_data / key.data().filter_value / test_data equals (a) a full scan filtered by a reference test written from the rustdoc (three-valued: cross-type combinations are don't-care) and (b) a full scan filtered by the library's own DataValue::test (index path vs scan path). Non-trivial = a repeated (key,value) insertion, or a probe after a key/data removal, or an operator whose type differs from the value's; distinct = distinct case JSON.".into()
     }
-    fn cases(&self, _tier: Tier) -> u64 {
-        0
+    fn assumptions(&self) -> Vec<String> {
+        vec![
+            "NaN is not generated (NaN != NaN makes 'same value' undefined)".into(),
+            "cross-type comparisons (integer operator on float value, Equals(string) on non-string values, ...) are don't-care for the reference test; they are still checked differentially (search path vs DataValue::test)".into(),
+            "result order is not part of the claim: results are compared as sets, duplicates are reported".into(),
+        ]
     }
-    fn strategy(&self, _tier: Tier) -> BoxedStrategy<u8> {
-        any::<u8>().boxed()
+    fn cases(&self, tier: Tier) -> u64 {
+        tier.pick(40_000, 1_000_000)
     }
-    fn run(&self, _case: &u8) -> Outcome {
-        let mut o = Outcome::new();
-        o.skip("not built");
-        o
+    fn strategy(&self, tier: Tier) -> BoxedStrategy<Case> {
+        let prefix = (text_strategy(4), proptest::collection::vec(dspec_(), 1..=4))
+            .prop_map(|(text, data)| vec![Op::AddResource { text, sfx: 0 }, Op::AddDataset { sfx: 0, data }]);
+        let probe = (proptest::option::weighted(0.8, any::<u16>()), proptest::option::weighted(0.7, any::<u16>()), op_spec())
+            .prop_map(|(set, key, op)| Probe { set, key: if set.is_some() { key } else { None }, op });
+        (prefix, c10_ops(tier.pick(14, 30)), proptest::collection::vec(probe, 1..=6))
+            .prop_map(|(mut p, ops, probes)| {
+                p.extend(ops);
+                Case {
+                    hist: History { hostile: false, ops: p },
+                    probes,
+                }
+            })
+            .boxed()
+    }
+
+    fn run(&self, case: &Case) -> Outcome {
+        let mut out = Outcome::new();
+        let mut m = Machine::new(false);
+        let mut after_removal = false;
+        for op in &case.hist.ops {
+            let step = m.apply(op);
+            if step.skipped.is_some() {
+                continue;
+            }
+            out.label(step.kind);
+            if step.labels.contains(&"repeated_pair") {
+                out.label("repeated_pair");
+                out.nontrivial = true;
+            }
+            if let Some(p) = &step.panic {
+                if op.is_removal() {
+                    out.label("stopped_at_foreign_divergence");
+                } else {
+                    out.fail("panic", format!("{}|{}", step.kind, p.signature()), format!("{} panicked: {}", step.kind, p.msg));
+                }
+                return out;
+            }
+            if let Err(e) = &step.result {
+                if op.is_removal() {
+                    out.label("stopped_at_foreign_divergence");
+                } else {
+                    out.fail("accept", format!("{}", step.kind), format!("{} failed: {}", step.kind, e));
+                }
+                return out;
+            }
+            if let Some(mm) = &step.mismatch {
+                out.fail("dedup", format!("handle|{}", step.kind), mm.clone());
+                return out;
+            }
+            if op.is_removal() {
+                after_removal = true;
+            }
+            // ---- vocabulary vs model
+            let store = &m.store;
+            let model = &m.model;
+            let obs = match catch(|| {
+                let mut sets = vec![];
+                for s in store.datasets() {
+                    let keys: Vec<(usize, Option<String>, Vec<usize>)> = s
+                        .keys()
+                        .map(|k| (k.handle().as_usize(), k.id().map(|x| x.to_string()), k.data().map(|d| d.handle().as_usize()).collect()))
+                        .collect();
+                    let data: Vec<(usize, Option<String>, usize, Val)> = s
+                        .data()
+                        .map(|d| (d.handle().as_usize(), d.id().map(|x| x.to_string()), d.key().handle().as_usize(), Val::from_stam(d.value())))
+                        .collect();
+                    sets.push((s.handle().as_usize(), s.id().map(|x| x.to_string()), keys, data));
+                }
+                let anns: Vec<(usize, Vec<(usize, usize)>)> = store
+                    .annotations()
+                    .map(|a| (a.handle().as_usize(), a.data().map(|d| (d.set().handle().as_usize(), d.handle().as_usize())).collect()))
+                    .collect();
+                (sets, anns)
+            }) {
+                Ok(o) => o,
+                Err(p) => {
+                    if after_removal {
+                        out.label("stopped_at_foreign_divergence");
+                    } else {
+                        out.fail("panic", format!("observe|{}", p.signature()), format!("traversing datasets panicked: {}", p.msg));
+                    }
+                    return out;
+                }
+            };
+            let (sets, anns) = obs;
+            if sets.iter().map(|s| s.0).collect::<Vec<_>>() != model.live_sets()
+                || anns.iter().map(|a| a.0).collect::<Vec<_>>() != model.live_anns()
+            {
+                out.label("stopped_at_foreign_divergence");
+                return out;
+            }
+            for (sh, sid, keys, data) in &sets {
+                let ms = model.set(*sh);
+                out.checks += 4;
+                if sid.as_deref() != Some(ms.id.as_str()) {
+                    out.fail("vocabulary.set", "id", format!("set {} id {:?} expected {:?}", sh, sid, ms.id));
+                }
+                let got_keys: Vec<(usize, Option<String>)> = keys.iter().map(|k| (k.0, k.1.clone())).collect();
+                let exp_keys: Vec<(usize, Option<String>)> = ms.live_keys().into_iter().map(|k| (k, ms.keys[k].clone())).collect();
+                if got_keys != exp_keys {
+                    if after_removal && got_keys.len() != exp_keys.len() {
+                        out.label("stopped_at_foreign_divergence");
+                        return out;
+                    }
+                    out.fail("vocabulary.keys", step.kind, format!("set {} keys {:?}, model expects {:?}", sh, got_keys, exp_keys));
+                }
+                let mut ids: Vec<&Option<String>> = keys.iter().map(|k| &k.1).collect();
+                ids.sort();
+                let n = ids.len();
+                ids.dedup();
+                if ids.len() != n {
+                    out.fail("dedup.key", step.kind, format!("set {} has two keys with the same id: {:?}", sh, got_keys));
+                }
+                let exp_data: Vec<(usize, Option<String>, usize, Val)> = ms
+                    .live_data()
+                    .into_iter()
+                    .map(|d| {
+                        let md = ms.data[d].as_ref().unwrap();
+                        (d, md.id.clone(), md.key, md.value.clone())
+                    })
+                    .collect();
+                let same = data.len() == exp_data.len()
+                    && data.iter().zip(exp_data.iter()).all(|(g, e)| g.0 == e.0 && g.1 == e.1 && g.2 == e.2 && g.3.same(&e.3));
+                if !same {
+                    if after_removal && data.len() != exp_data.len() {
+                        out.label("stopped_at_foreign_divergence");
+                        return out;
+                    }
+                    out.fail("vocabulary.data", step.kind, format!("set {} data {:?}, model expects {:?}", sh, data, exp_data));
+                }
+                // id-less data: no two with the same (key, value)
+                for (i, a) in data.iter().enumerate() {
+                    for b in data.iter().skip(i + 1) {
+                        if a.1.is_none() && b.1.is_none() && a.2 == b.2 && a.3.same(&b.3) {
+                            out.fail("dedup.pair", a.3.type_name(), format!("set {}: id-less data {} and {} carry the same (key {}, value {:?})", sh, a.0, b.0, a.2, a.3));
+                        }
+                    }
+                }
+                // key.data() == scan
+                for (kh, _, kd) in keys {
+                    out.checks += 1;
+                    let scan: Vec<usize> = data.iter().filter(|d| d.2 == *kh).map(|d| d.0).collect();
+                    if *kd != scan {
+                        out.fail("key.data", step.kind, format!("key ({},{}) data() = {:?}, a scan gives {:?}", sh, kh, kd, scan));
+                    }
+                }
+            }
+            for (ah, ad) in &anns {
+                out.checks += 1;
+                if *ad != model.ann(*ah).data {
+                    if op.is_removal() {
+                        out.label("stopped_at_foreign_divergence");
+                        return out;
+                    }
+                    out.fail("dedup.annotation", step.kind, format!("annotation {} refers to data {:?}, model expects {:?}", ah, ad, model.ann(*ah).data));
+                }
+            }
+            if !out.failures.is_empty() {
+                return out;
+            }
+            // ---- probes
+            for probe in &case.probes {
+                let live_sets = model.live_sets();
+                let set_h: Option<usize> = match probe.set {
+                    Some(i) if !live_sets.is_empty() => Some(live_sets[pick(i, live_sets.len())]),
+                    _ => None,
+                };
+                let key_h: Option<usize> = match (set_h, probe.key) {
+                    (Some(s), Some(k)) => {
+                        let ks = model.set(s).live_keys();
+                        if ks.is_empty() {
+                            None
+                        } else {
+                            Some(ks[pick(k, ks.len())])
+                        }
+                    }
+                    _ => None,
+                };
+                let sop = probe.op.to_stam();
+                // scans
+                let mut exp_lib = vec![];
+                let mut exp_ref: Vec<((usize, usize), Option<bool>)> = vec![];
+                let mut cross = false;
+                for (sh, _, _, data) in &sets {
+                    if set_h.is_some() && set_h != Some(*sh) {
+                        continue;
+                    }
+                    for d in data {
+                        if key_h.is_some() && key_h != Some(d.2) {
+                            continue;
+                        }
+                        let libv = match catch(|| d.3.to_stam().test(&sop)) {
+                            Ok(b) => b,
+                            Err(p) => {
+                                out.fail("panic", format!("DataValue::test|{}", p.signature()), format!("DataValue::test panicked: {}", p.msg));
+                                return out;
+                            }
+                        };
+                        if libv {
+                            exp_lib.push((*sh, d.0));
+                        }
+                        let r = probe.op.reference(&d.3);
+                        if probe.op.cross_type(&d.3) {
+                            cross = true;
+                        }
+                        exp_ref.push(((*sh, d.0), r));
+                    }
+                }
+                if cross {
+                    out.label("cross_type");
+                    out.nontrivial = true;
+                }
+                if after_removal {
+                    out.nontrivial = true;
+                    out.label("probe_after_removal");
+                }
+                out.label(probe.op.name());
+                let mut results: Vec<(&'static str, Vec<(usize, usize)>)> = vec![];
+                let collect = |it: Box<dyn Iterator<Item = ResultItem<AnnotationData>> + '_>| -> Vec<(usize, usize)> {
+                    it.map(|d| (d.set().handle().as_usize(), d.handle().as_usize())).collect()
+                };
+                let r = catch(|| match (set_h, key_h) {
+                    (Some(s), Some(k)) => collect(store.find_data(AnnotationDataSetHandle::new(s), DataKeyHandle::new(k), sop.clone())),
+                    (Some(s), None) => collect(store.find_data(AnnotationDataSetHandle::new(s), false, sop.clone())),
+                    _ => collect(store.find_data(false, false, sop.clone())),
+                });
+                match r {
+                    Ok(v) => results.push(("store.find_data", v)),
+                    Err(p) => out.fail("panic", format!("store.find_data|{}", p.signature()), format!("find_data panicked: {}", p.msg)),
+                }
+                // by public id as well
+                if let Some(s) = set_h {
+                    let sid = model.set(s).id.clone();
+                    let r = catch(|| match key_h {
+                        Some(k) => {
+                            let kid = model.set(s).keys[k].clone().unwrap();
+                            collect(store.find_data(sid.as_str(), kid.as_str(), sop.clone()))
+                        }
+                        None => collect(store.find_data(sid.as_str(), false, sop.clone())),
+                    });
+                    match r {
+                        Ok(v) => results.push(("store.find_data(ids)", v)),
+                        Err(p) => out.fail("panic", format!("store.find_data|{}", p.signature()), format!("find_data panicked: {}", p.msg)),
+                    }
+                    if let Some(ds) = store.dataset(AnnotationDataSetHandle::new(s)) {
+                        let r = catch(|| match key_h {
+                            Some(k) => collect(ds.find_data(DataKeyHandle::new(k), sop.clone())),
+                            None => collect(ds.find_data(false, sop.clone())),
+                        });
+                        match r {
+                            Ok(v) => results.push(("dataset.find_data", v)),
+                            Err(p) => out.fail("panic", format!("dataset.find_data|{}", p.signature()), format!("find_data panicked: {}", p.msg)),
+                        }
+                        if let Some(k) = key_h {
+                            if let Some(key) = ds.key(DataKeyHandle::new(k)) {
+                                let r = catch(|| {
+                                    key.data()
+                                        .filter_value(sop.clone())
+                                        .map(|d| (d.set().handle().as_usize(), d.handle().as_usize()))
+                                        .collect::<Vec<_>>()
+                                });
+                                match r {
+                                    Ok(v) => results.push(("key.data.filter_value", v)),
+                                    Err(p) => out.fail("panic", format!("key.data|{}", p.signature()), format!("key.data().filter_value panicked: {}", p.msg)),
+                                }
+                            }
+                        }
+                        let t = catch(|| match key_h {
+                            Some(k) => ds.test_data(DataKeyHandle::new(k), sop.clone()),
+                            None => ds.test_data(false, sop.clone()),
+                        });
+                        if let Ok(t) = t {
+                            out.checks += 1;
+                            if t != !exp_lib.is_empty() {
+                                out.fail("test_data", format!("dataset|{}", probe.op.name()), format!("dataset.test_data = {} but the scan finds {:?}", t, exp_lib));
+                            }
+                        }
+                    }
+                }
+                let t = catch(|| match (set_h, key_h) {
+                    (Some(s), Some(k)) => store.test_data(AnnotationDataSetHandle::new(s), DataKeyHandle::new(k), sop.clone()),
+                    (Some(s), None) => store.test_data(AnnotationDataSetHandle::new(s), false, sop.clone()),
+                    _ => store.test_data(false, false, sop.clone()),
+                });
+                if let Ok(t) = t {
+                    out.checks += 1;
+                    if t != !exp_lib.is_empty() {
+                        out.fail("test_data", format!("store|{}", probe.op.name()), format!("store.test_data = {} but the scan finds {:?}", t, exp_lib));
+                    }
+                }
+                let exp_lib_sorted = sorted(exp_lib.clone());
+                for (entry, got) in &results {
+                    out.checks += 2;
+                    let gs = sorted(got.clone());
+                    let mut gd = gs.clone();
+                    gd.dedup();
+                    if gd.len() != gs.len() {
+                        out.fail("find_data.dup", format!("{}|{}", entry, probe.op.name()), format!("{} returned an item twice: {:?}", entry, got));
+                    }
+                    if gd != exp_lib_sorted {
+                        out.fail(
+                            "find_data.scan",
+                            format!("{}|{}|{}", entry, probe.op.name(), if key_h.is_some() { "key" } else if set_h.is_some() { "set" } else { "any" }),
+                            format!("{} with {:?} (set {:?}, key {:?}) returned {:?}; a full scan with DataValue::test selects {:?}", entry, probe.op, set_h, key_h, gs, exp_lib_sorted),
+                        );
+                    }
+                    // reference semantics
+                    for (item, r) in &exp_ref {
+                        match r {
+                            None => out.dontcare += 1,
+                            Some(b) => {
+                                out.checks += 1;
+                                let has = gd.contains(item);
+                                if has != *b {
+                                    let v = sets.iter().find(|s| s.0 == item.0).and_then(|s| s.3.iter().find(|d| d.0 == item.1)).map(|d| d.3.clone());
+                                    out.fail(
+                                        "find_data.meaning",
+                                        format!("{}|{}|{}", probe.op.name(), v.as_ref().map(|v| v.type_name()).unwrap_or("?"), if has { "extra" } else { "missing" }),
+                                        format!("{} with {:?}: item {:?} (value {:?}) {} although the documented test says {}", entry, probe.op, item, v, if has { "is returned" } else { "is not returned" }, b),
+                                    );
+                                }
+                            }
+                        }
+                    }
+                }
+            }
+            if !out.failures.is_empty() {
+                return out;
+            }
+        }
+        out
     }
 }
